@@ -66,7 +66,14 @@ def do_run(ids, runs, props):
                 sys.stdout.flush()
             finally:
                 seeded.drop(t)
-            json.dump(results, open(rpath, "w"), indent=1, sort_keys=True)
+            # other lanes may be writing too: merge with what is on disk
+            try:
+                disk = json.load(open(rpath)) if os.path.exists(rpath) else {}
+            except Exception:
+                disk = {}
+            for k2, v2 in results.items():
+                disk.setdefault(k2, {}).update(v2)
+            json.dump(disk, open(rpath, "w"), indent=1, sort_keys=True)
     finally:
         for f in os.listdir(keep):
             shutil.copy(os.path.join(keep, f), os.path.join(VERIF, "evidence", f))
